@@ -1,0 +1,12 @@
+//go:build verif
+
+package core
+
+// VerifPersist forces one flush of the write cache to the underlying
+// persistent store. It exists only under the `verif` build tag and is used by
+// external verification harnesses to place flushes at chosen points (the
+// production flush is driven by a timer in Run).
+func (bc *Blockchain) VerifPersist() error {
+	_, err := bc.persist()
+	return err
+}
